@@ -147,7 +147,7 @@ def check(tier):
                 npairs += 1
         if kind == "rr":
             # long enough for anything that only happens every thousandth eviction
-            blk = pair_block(kind, "ins", "ins", seed + 7, 3000 if tier == "quick" else 12000)
+            blk = pair_block(kind, "ins", "ins", seed + 7, 8000 if tier == "quick" else 30000)
             blk = [x.replace("keys 4", "keys 9") for x in blk]
             blk[0] = blk[0].replace(" 4 250", " 9 250") if blk[0].endswith(" 4 250") else blk[0]
             blocks.append((("ins", "ins"), blk))
